@@ -13,6 +13,12 @@ boomp := {|i| i.p; 1.nopeprop}
 f3 := {|a, b, c| [a, b, c]}
 fk := {|a, k1: 0, k2: 0| [a, k1, k2]}
 idf := {|x| x}
+to := {|i| i.p; {k1: i}}
+ta := {|i| i.p; [i, i]}
+tm := {|i| i.p; %{i: i}}
+tf := {|i| i.p; {|x| x}}
+f2 := {|a, x| a}
+f2p := {|a, x| x.p; a}
 '''
 BOOMS = {"boom": ("Err", "E%d"), "boomz": ("ZeroDivisionErr", "cannot be divided by 0"),
          "boomn": ("NameErr", "name `nopename` is not defined"),
@@ -47,6 +53,37 @@ TEMPLATES = [
     ("return", "{{|| return {0}; {1}}}()", [0], "tt"),
     ("litcall_recv", "{0}.{{|x| x + {1}}}", [0, 1], "tt"),
     ("varcall_recv", "{0}.^idf", [0], "t"),
+    ("yield_then_stmt", "{{|| yield {0}; {1}}}()", [0, 1], "tt"),
+    ("yield_then_stmt3", "{{|| {0}; yield {1}; {2}}}()", [0, 1, 2], "ttt"),
+    ("iter_yield_then", "<{{|| yield {0}; {1}}}>.new.next", [0, 1], "tt"),
+    ("args_dstar", "fk({0}, **{1}, **{2})", [0, 1, 2], "too"),
+    ("args_star", "f3(*{0}, {1})", [0, 1], "at"),
+    ("arr_star", "[{0}, *{1}, {2}]", [0, 1, 2], "tat"),
+    ("obj_dstar", "{{a: {0}, **{1}, **{2}}}", [0, 1, 2], "too"),
+    ("map_dstar", "%{{1: {0}, **{1}, **{2}}}", [0, 1, 2], "tmo"),
+    ("varcall_chainarg", "[{0}]@([{1}])^idf", [0, 1], "tt"),
+    ("litcall_chainarg", "[{0}]@([{1}]){{|x| x}}", [0, 1], "tt"),
+    ("propcall_reduce_init", "[{0}]$({1})+", [0, 1], "tt"),
+    ("varcall_reduce_init", "[{0}]$({1})^f2", [0, 1], "tt"),
+    ("litcall_reduce_init", "[{0}]$({1}){{|a, x| a}}", [0, 1], "tt"),
+    ("scalar_varcall_arg", "{0}.^idf", [0], "t"),
+    ("callee", "{0}({1})", [0, 1], "ft"),
+    ("index", "[1, 2, 3][{0}]", [0], "t"),
+    ("index_recv", "[{0}, 2][{1}]", [0, 1], "tz"),
+    ("kwarg_default", "{{|k: {0}, j: {1}| k}}()", [0, 1], "tt"),
+    ("raise_stmt", "{{|| raise {0}; {1}}}()", [0], "tt"),
+    ("if_guard_stmt", "{{|| return {1} if {0}; {2}}}()", [0, 1], "ttt"),
+]
+
+
+# templates whose callee prints: used with an injected raise only (the callee must NOT run)
+TEMPLATES_FAILONLY = [
+    ("varcall_chainarg_called", "[{0}]@([{1}])^t", [0, 1], "tt"),
+    ("litcall_chainarg_called", "[{0}]@([{1}]){{|x| t(x)}}", [0, 1], "tt"),
+    ("propcall_chainarg_called", "[{0}]@([{1}])p", [0, 1], "tt"),
+    ("varcall_reduce_init_called", "[{0}]$({1})^f2p", [0, 1], "tt"),
+    ("litcall_reduce_init_called", "[{0}]$({1}){{|a, x| t(x)}}", [0, 1], "tt"),
+    ("scalar_varcall_chainarg", "{0}.({1})^t", [0, 1], "tt"),
 ]
 
 
@@ -74,7 +111,7 @@ def build(rng, depth, ctr, want=None):
         else:
             i = ctr.next()
             texts[j] = "<<%d>>" % i
-            sub[j] = [(i, {"t": "t", "T": "t", "z": "tz", "s": "ts"}[kinds[j]])]
+            sub[j] = [(i, {"t": "t", "T": "t", "z": "tz", "s": "ts", "o": "to", "a": "ta", "m": "tm", "f": "tf"}[kinds[j]])]
     holes = []
     for j in order:
         holes += sub[j]
@@ -155,10 +192,12 @@ def gen(chk):
     rng.seed(777)
     booms = list(BOOMS)
     # systematic: every template x every position x every wrapper (seed-independent)
-    for tpl in TEMPLATES:
+    for tpl in TEMPLATES + TEMPLATES_FAILONLY:
         ctr = Counter()
         text, holes = build(rng, 0, ctr, want=tpl)
         for pos in range(len(holes)):
+            if tpl in TEMPLATES_FAILONLY and pos == 0:
+                continue
             for wi, w in enumerate(WRAPPERS):
                 b = booms[(pos + wi) % len(booms)] if w in ("plain", "fn") else "boom"
                 body, markers = instantiate(text, holes, pos, b)
